@@ -468,10 +468,10 @@ func checkC09(c *FaultCase) (f *ev.Failure, applied bool) {
 			return ev.Failf("bystander", "a later healthy request was affected by fault %s: %s", kind, msg), true
 		}
 	}
-	deadline := time.Now().Add(2 * time.Second)
+	deadline := time.Now().Add(20 * time.Second) // a leak lasts forever; the limit is paid only on failure
 	for pebblesGoroutines() > 0 {
 		if time.Now().After(deadline) {
-			return ev.Failf("leak", "%d pebbles goroutines remain 2s after the request with fault %s", pebblesGoroutines(), kind), true
+			return ev.Failf("leak", "%d pebbles goroutines remain 20s after the request with fault %s", pebblesGoroutines(), kind), true
 		}
 		time.Sleep(300 * time.Microsecond)
 	}
